@@ -193,12 +193,16 @@ type c03Args struct {
 	Write   int // write size (0: one write)
 	Faults  []c03Fault
 	CutAt   int // diamond: cut the active first-hop link after this many data packets (0: never)
+	StallMs int // the link stops taking data (its Send blocks) this long before it is cut: datagrams are caught in mid-forwarding
 	Both    bool
 }
 
 func (a c03Args) String() string {
 	if a.Connect {
 		return fmt.Sprintf("connect bridging size=%d", a.Size)
+	}
+	if a.StallMs > 0 {
+		return fmt.Sprintf("topo=%s size=%d write=%d faults=%v cut=%d stall=%dms both=%v", a.Topo, a.Size, a.Write, a.Faults, a.CutAt, a.StallMs, a.Both)
 	}
 	return fmt.Sprintf("topo=%s size=%d write=%d faults=%v cut=%d both=%v", a.Topo, a.Size, a.Write, a.Faults, a.CutAt, a.Both)
 }
@@ -340,7 +344,17 @@ func execC03(w *W, raw json.RawMessage) CaseOut {
 			if a.CutAt > 0 && !cutDone && k == activeFirstHop && i+1 >= a.CutAt {
 				cutDone = true
 				x, y := s.from, s.to
-				go m.down(x, y)
+				if a.StallMs > 0 {
+					// a congested link: it takes nothing more (the node's writer is stuck in Send, the next
+					// datagram waits in forwardMessage), and is declared dead a little later
+					s.stall = make(chan struct{})
+					go func() {
+						time.Sleep(time.Duration(a.StallMs) * time.Millisecond)
+						m.down(x, y)
+					}()
+				} else {
+					go m.down(x, y)
+				}
 			}
 			for _, f := range a.Faults {
 				if f.Link == k && f.Index == i {
@@ -374,7 +388,11 @@ func execC03(w *W, raw json.RawMessage) CaseOut {
 		case cres = <-cliCh:
 			got++
 		case <-timeout:
-			out.violate("stream:transfer-does-not-finish", "%s: not finished after 60 s (write error %v, %d data packets seen)", ctx, werr, total)
+			k := "stream:transfer-does-not-finish"
+			if a.StallMs > 0 {
+				k += ":stalled-link-cut"
+			}
+			out.violate(k, "%s: not finished after 60 s (write error %v, %d data packets seen)", ctx, werr, total)
 			return out
 		}
 	}
@@ -414,6 +432,11 @@ func execC03(w *W, raw json.RawMessage) CaseOut {
 	out.count("faults_applied", applied)
 	if cutDone {
 		out.count("links_cut", 1)
+	}
+	if a.StallMs > 0 {
+		for i := range out.Viol {
+			out.Viol[i].Key += ":stalled-link-cut"
+		}
 	}
 	out.Outcome = fmt.Sprintf("%s faults=%d applied=%d cut=%v", a.Topo, len(a.Faults), applied, cutDone)
 	out.Sample = map[string]any{"case": ctx, "data_packets": total, "faults_applied": applied}
@@ -490,6 +513,9 @@ func coordC03(c *Coord) {
 	}
 	for t := 1; t <= cutMax; t += 2 {
 		jobs = append(jobs, c03Args{Topo: "diamond", Size: 60000, Write: 1200, Both: true, CutAt: t})
+		if t%4 == 1 {
+			jobs = append(jobs, c03Args{Topo: "diamond", Size: 60000, Write: 1200, Both: true, CutAt: t, StallMs: 300})
+		}
 	}
 	var wg sync.WaitGroup
 	sem := make(chan struct{}, p.size())
@@ -595,7 +621,7 @@ func init() {
 		ID:        "C03",
 		Level:     "fault_enumeration",
 		Technique: "enumeration of fault positions (drop / duplicate / delay of the i-th datagram of every link direction, link cut after t datagrams with a second path) on real QUIC streams between real nodes over harness links in real time, one process per execution; deviation-bounded DFS over environment answers (short reads, errors, short writes) of the real BridgeConns; the connect command's bridge in a synctest bubble",
-		Rule: "loss-free: sizes {0,1,1200,20000 (thorough 200000)} x write sizes {one write, 7, 1200} x {1,2,3 hops, diamond}, both directions at once with half-close by both sides; single faults {drop, duplicate, +30 ms delay} at every data-packet index < 24 (thorough 60) of every link direction on 1- and 2-hop paths (2 hops quick: even indices); thorough: pairs of faults on a stride-4 grid; cutting the active first-hop link of the diamond after t = 1,3,..,29 (thorough 79) data packets; bridge: payloads of 0-3 chunks, every answer sequence with <=2 deviations. " +
+		Rule: "loss-free: sizes {0,1,1200,20000 (thorough 200000)} x write sizes {one write, 7, 1200} x {1,2,3 hops, diamond}, both directions at once with half-close by both sides; single faults {drop, duplicate, +30 ms delay} at every data-packet index < 24 (thorough 60) of every link direction on 1- and 2-hop paths (2 hops quick: even indices); thorough: pairs of faults on a stride-4 grid; cutting the active first-hop link of the diamond after t = 1,3,..,29 (thorough 79) data packets, and for t = 1,5,9,.. additionally with the link stalled (Send blocks) for 300 ms before it is cut, so that datagrams are caught in the middle of being forwarded; bridge: payloads of 0-3 chunks, every answer sequence with <=2 deviations. " +
 			"Each execution is distinct; non-trivial = a stream was transferred. Oracle: bytes read = bytes written in both directions, end-of-stream after the last byte, completion within 60 s; after a failing side the bridge delivered a prefix.",
 		Assumptions: []string{"QUIC packetisation is not replay-stable: a fault index names the i-th data packet of this run (faults_applied counts the ones that hit)", "real time with a 60 s completion limit (observed transfers: tens of milliseconds)", "the TCP/Unix proxy services are represented by their BridgeConns core"},
 		Run:         runC03,
